@@ -10,7 +10,7 @@ verus! {
 pub struct VErr;
 #[verifier::external_body] pub struct PrimV { x: usize }
 // values: opaque except for nil (Optional(None)) and heap pointers (which move_out_of_heap_primitive resolves)
-pub enum Primitive { Optional(Option<Box<Primitive>>), Plain(u64), Pointer(u64) }
+pub enum Primitive { Optional(Option<Box<Primitive>>), Plain(u64), Pointer(u64), Map(GcMap) }
 pub open spec fn nil() -> Primitive { Primitive::Optional(None) }
 pub uninterp spec fn moved_out(p: Primitive) -> Option<Primitive>;          // pointee value / identity on plain values / None on a dangling pointer
 #[verifier::external_body] pub fn move_out(p: Primitive) -> (r: Result<Primitive, VErr>)
@@ -83,10 +83,51 @@ def build(repo):
         check_closed(b, f"GcMap::{n}")
         parts.append(f"    //@ OBL C13.map.{n}\n    {sig}\n        {contract}\n    {{\n{render(b, 2)}\n    }}\n")
         obls.append(Obl(f"C13.map.{n}", ["C13"], fn=f"GcMap::{n}", desc=f"GcMap::{n} against the finite-map model (shared cell; effect on exactly this map)"))
-    gen = header(log, f"{PRIM}: impl GcMap (insert, get, len, contains_key, clear, remove)") + SPEC + "impl GcMap {\n" + "\n".join(parts) + "}\n} // verus!\nfn main() {}\n"
+    # ---- fast_map_insert (instruction.rs): one per pair of a map literal
+    ff = src.fn("bytecode/src/instruction.rs", "fast_map_insert", "pub mod implementations")
+    bf = translate(ff["body"], [
+        Rule("R3", "bail ! $a", "return Err ( VErr )", why="bail! -> return Err"),
+        Rule("R9", "args . first ( )", "args_first ( args )", why="slice::first"), Rule("R9", "args . get ( 1 )", "args_get1 ( args )", why="slice::get"),
+        Rule("R6", "ctx . load_local ( $r ) ?", "load_local ( locals , $r ) ?", why="frame lookup abstract"),
+        Rule("R1", "let Primitive :: Map ( map ) = & * map . primitive ( ) else", "let Primitive :: Map ( map ) = pair_value ( & map ) else", why="content of the register's cell"),
+        Rule("R1", "key . primitive ( ) . clone ( )", "pair_value_clone ( & key )", why="content of the key register's cell"),
+        Rule("R8", "ctx . pop ( ) . expect ( $m )", "stack_pop ( stack )", why="operand stack as an explicit vector; expect: a panic on an empty stack (R8)"),
+        Rule("R10", "map . insert ( $$a , $$b , ) ?", "map . insert ( $$a , $$b , heap ) ?", why="heap threaded"),
+        Rule("R10", "map . 0 . borrow_mut ( ) . insert ( $$a , $$b , ) ;", "hm_insert ( heap , map , $$a , $$b ) ;", why="direct HashMap::insert on the map cell"),
+    ], log, "fast_map_insert")
+    check_closed(bf, "fast_map_insert")
+    extra = f"""
+#[verifier::external_body] pub struct VStr {{ x: usize }}
+#[verifier::external_body] pub struct Locals {{ x: usize }}
+#[verifier::external_body] pub struct Pair {{ x: usize }}
+pub uninterp spec fn local_value(l: &Locals, n: &VStr) -> Option<Primitive>;
+pub uninterp spec fn pair_val(p: &Pair) -> Primitive;
+#[verifier::external_body] pub fn load_local(l: &Locals, n: &VStr) -> (r: Result<Pair, VErr>) ensures r is Ok <==> local_value(l, n) is Some, r is Ok ==> pair_val(&r->Ok_0) == local_value(l, n)->Some_0 {{ unimplemented!() }}
+#[verifier::external_body] pub fn pair_value(p: &Pair) -> (r: &Primitive) ensures *r == pair_val(p) {{ unimplemented!() }}
+#[verifier::external_body] pub fn pair_value_clone(p: &Pair) -> (r: Primitive) ensures r == pair_val(p) {{ unimplemented!() }}
+pub fn args_first(a: &Vec<VStr>) -> (r: Option<&VStr>) ensures a@.len() == 0 ==> r is None, a@.len() > 0 ==> r == Some(&a@[0]) {{ if a.len() > 0 {{ Some(&a[0]) }} else {{ None }} }}
+pub fn args_get1(a: &Vec<VStr>) -> (r: Option<&VStr>) ensures a@.len() <= 1 ==> r is None, a@.len() > 1 ==> r == Some(&a@[1]) {{ if a.len() > 1 {{ Some(&a[1]) }} else {{ None }} }}
+pub fn stack_pop(s: &mut Vec<Primitive>) -> (r: Primitive) requires old(s)@.len() > 0 ensures r == old(s)@.last(), final(s)@ == old(s)@.drop_last() {{ s.pop().unwrap() }}
+
+//@ OBL C15.map.pair-by-value
+// fast_map_insert M K (one per pair of a map literal): the pair's VALUE -- copied out of any element / field pointer -- is inserted under the key
+// saved in K into the map in M, so evaluating later pairs cannot change it any more
+pub fn fast_map_insert(stack: &mut Vec<Primitive>, locals: &Locals, args: &Vec<VStr>, heap: &mut Heap) -> (r: Result<(), VErr>)
+    requires old(stack)@.len() > 0          // the compiled layout (C15.map.layout): the value's code runs right before this instruction
+    ensures
+        r is Ok ==> args@.len() >= 2 && local_value(locals, &args@[0]) is Some && local_value(locals, &args@[0])->Some_0 is Map && local_value(locals, &args@[1]) is Some
+            && moved_out(local_value(locals, &args@[1])->Some_0) is Some && moved_out(old(stack)@.last()) is Some
+            && ({{ let m = local_value(locals, &args@[0])->Some_0->Map_0;
+                  maps(final(heap)) == maps(old(heap)).insert(mid(&m), entries(old(heap), &m).insert(moved_out(local_value(locals, &args@[1])->Some_0)->Some_0, moved_out(old(stack)@.last())->Some_0)) }}),
+{{
+{render(bf, 1)}
+}}
+"""
+    obls.append(Obl("C15.map.pair-by-value", ["C15", "C13"], fn="fast_map_insert", desc="fast_map_insert: key and value are inserted as values (pointers resolved) into the map held in the map register"))
+    gen = header(log, f"{PRIM}: impl GcMap (insert, get, len, contains_key, clear, remove); instruction.rs: fast_map_insert") + SPEC + "impl GcMap {\n" + "\n".join(parts) + "}\n" + extra + "} // verus!\nfn main() {}\n"
     return gen, obls, log
 
 
-UNITS = [VUnit("c13_maps", ["C13"], "map methods vs the finite-map model, sharing as an explicit heap", build)]
+UNITS = [VUnit("c13_maps", ["C13", "C15"], "map methods vs the finite-map model, sharing as an explicit heap", build)]
 UNITS[0].assumes = ["gc / RefCell semantics assumed: a map handle denotes a heap cell; std::HashMap operations have their documented meaning (hm_* contracts)",
                     "Primitive is opaque (Hash / Eq of keys as HashMap uses them = value equality); keys()/values()/pairs() (iteration order unspecified) and the BuiltInFunction::Map* argument marshalling are not covered"]
